@@ -88,7 +88,8 @@ CLAIMS = {
         design="DESIGN.md §5 C08"),
     'C07': dict(
         text="Proved for every delimiter set: check_encoding_chars accepts exactly the sets with the five required roles present and all supplied characters (TRUNCATION "
-             "included) pairwise distinct; the header spelled from a set (MSH FIELD MSH-2 FIELD ...) is read back by _split_msh as exactly that set. That every separator "
+             "included) pairwise distinct; the header spelled from a set (MSH FIELD MSH-2 FIELD ...) is read back by _split_msh as exactly that set; and on the cascade model (Hl7.Casc, compared with the real element tree under C01) every character of an encoding is a leaf character "
+             "or the separator of one of the levels handed to the encoder, at every depth, for every tree (C07_only_own_separators). That every separator "
              "of the body comes from the set, that every descendant reports it, that parse_message(to_er7()) recovers set and encoding, and the to_mllp framing are "
              "decided by the correspondence + oracle over random sets and all 720 role permutations of one 6-character set (thorough) on messages built through the API "
              "(partial: the element graph is modelled under C09-C12).",
